@@ -79,15 +79,21 @@ pub fn gen_c14(rng: &mut Rng, thorough: bool, cases: &mut dyn Write, meta: &mut 
                         let subset: Vec<&(&str, String, Vec<u8>)> = (0..k).filter(|i| mask & (1 << i) != 0).map(|i| &avail[i]).collect();
                         let names: Vec<&str> = subset.iter().map(|s| s.0).collect();
                         let mut h2: Vec<(String, Vec<u8>)> = subset.iter().map(|s| (s.1.clone(), s.2.clone())).collect();
+                        // If-Range echo: with a single range, with an efficient and with an inefficient range set
+                        let range_variant = (mask as usize + n as usize) % 3;
                         if names.contains(&"ifr") {
-                            h2.push(("range".into(), b"bytes=5-9".to_vec()));
+                            h2.push(("range".into(), match range_variant {
+                                0 => b"bytes=5-9".to_vec(),
+                                1 => b"bytes=0-1, 100-104".to_vec(),
+                                _ => b"bytes=0-400, 500-999".to_vec(),      // estimate >= L: complete 200
+                            }));
                         }
                         let expect = if names.contains(&"inm") {
                             0
                         } else if names.contains(&"ims") {
                             0
                         } else if names.contains(&"ifr") {
-                            2
+                            if range_variant == 2 { 1 } else { 2 }
                         } else {
                             1
                         };
